@@ -3,6 +3,7 @@ import Mdsort.Proofs.WorldFrameMain
 import Mdsort.Proofs.WorldStdinExample
 import Mdsort.Proofs.EvalErrProp
 import Mdsort.Proofs.EvalAtt
+import Mdsort.Proofs.ExecStatus
 
 /-!
 # C04 - the exit status tells the truth (MDA contract, error isolation)
@@ -488,5 +489,98 @@ theorem C04_eval_error_propagates_unrestricted_false : ¬ C04_eval_error_propaga
   have := h errEnv errMsg MFlags.empty errTreeCross errRulesCross hp hd (by rw [ho])
   rw [hm] at this
   cases this
+
+/-! ## Command errors: the status of a child (anchor "command/exec exit status mapping")
+
+`Proofs.BadChild tr`: somewhere in the trace `tr` a `fork` returned no pid, or a `waitpid` failed or reported a wait status
+other than "exited with 0" - i.e. a non-zero exit code (127 included) or death by a signal
+(`Proofs.waitKind`, `Model.execStatus`: Props/C13.lean `C13_exec_status_mapping`). -/
+
+/-- **Every non-zero or signalled status of an `exec` action is an error of the message, and no later action of that message
+issues a call.**  Arbitrary call results; with or without `stdin` / `stdin body`; for the message or a part inside an
+`attachment { }` block: if, while the entry is executed, `fork` fails, `waitpid` fails or the child did anything but exit with
+0, then the entry reports an error, `matches_exec` reports an error for the message, and the calls of the whole list are the
+same whatever follows the entry (so they are the calls of the list that ends with it). -/
+theorem C04_exec_status_is_error (env : PEnv) (mh : Match) (rest rest' : MatchList) (st : ExecSt) (orc : Nat → Call → Res)
+    (hty : mh.ty = .exec) (hb : Proofs.BadChild (runOracle orc (execOne env mh st) 0 []).2) :
+    (runOracle orc (execOne env mh st) 0 []).1.2 = true ∧
+    (runOracle orc (matchesExec env (mh :: rest) st) 0 []).1.2 = true ∧
+    (runOracle orc (matchesExec env (mh :: rest) st) 0 []).2 = (runOracle orc (matchesExec env (mh :: rest') st) 0 []).2 :=
+  have he := Proofs.execOne_bad_child env mh st orc hty hb
+  ⟨he, Proofs.error_stops_list env mh rest rest' st orc he⟩
+
+/-- Non-vacuity: `exec "x"` whose child exits with status 1 (wait status 256): the trace is open /dev/null, fork, waitpid,
+close; it is a `BadChild` trace; the theorem applies. -/
+example (st : ExecSt) :
+    let orc : Nat → Call → Res := fun i _ => if i == 2 then .ok 256 else .ok 3
+    let mh : Match := { ty := .exec, lno := 1, part := 0, argv := [[120]] }
+    (runOracle orc (execOne Proofs.StdinExample.env0 mh st) 0 []).2 =
+      [(.openPath (ofString "/dev/null"), .ok 3), (.fork, .ok 3), (.waitpid, .ok 256), (.close 3, .ok 3)] ∧
+    Proofs.BadChild (runOracle orc (execOne Proofs.StdinExample.env0 mh st) 0 []).2 ∧
+    (runOracle orc (execOne Proofs.StdinExample.env0 mh st) 0 []).1.2 = true := by
+  intro orc mh
+  have htr : (runOracle orc (execOne Proofs.StdinExample.env0 mh st) 0 []).2 =
+      [(.openPath (ofString "/dev/null"), .ok 3), (.fork, .ok 3), (.waitpid, .ok 256), (.close 3, .ok 3)] := rfl
+  have hb : Proofs.BadChild (runOracle orc (execOne Proofs.StdinExample.env0 mh st) 0 []).2 := by
+    rw [htr]
+    refine .inr ⟨.ok 256, by simp, ?_⟩
+    intro s hs
+    cases hs
+    decide
+  exact ⟨htr, hb, (C04_exec_status_is_error _ mh [] [] st orc rfl hb).1⟩
+
+/-- **A `command` condition that cannot be run is an error, not "no match".**  When /dev/null cannot be opened, `fork` or
+`waitpid` fails, or the child exits with 127 (its `execvp` failed), the condition evaluates to ERROR - the verdict
+`C04_message_error_iff` turns into the error flag of the run - and the match list is untouched.  (Hypothesis `hrc`: the
+environment's command oracle is `exec()`, see `C13_status`; in `Model.processMessage` the oracle is still the constant -1,
+DESIGN 9.4.) -/
+theorem C04_command_failure_is_error (env : Env) (root : Msg) (lno : Nat) (argv av : List Bytes) (part : Nat) (m : Msg) (st : St)
+    (hav : argv.mapM (interpolate st.ml none) = some av)
+    (d : Bool) (f w : Res) (hrc : env.command av = Model.execValue d f w)
+    (h : Proofs.childOutcome d f w = .cannotRun ∨ Proofs.childOutcome d f w = .waited (.exited 127)) :
+    eval env root (.command lno argv) part m st = (.error, st) := by
+  rw [Proofs.eval_command, hav]
+  simp only [hrc, Proofs.execValue_outcome, Proofs.commandTri_outcome]
+  rw [(Proofs.outcomeTri_error_iff _).2 h]
+
+/-- Non-vacuity: the child's `execvp` failed (exit 127, wait status 127 * 256); `fork` failed. -/
+example :
+    Proofs.childOutcome true (.ok 7) (.ok (127 * 256)) = .waited (.exited 127) ∧
+    Proofs.childOutcome true (.err "EAGAIN") (.ok 0) = .cannotRun := by decide
+
+/-! ### Death by a signal of a `command` condition: what the code does (candidate finding, not claimed)
+
+The anchor of C04 says "127 and signals are errors".  For `exec` actions that is `C04_exec_status_is_error`.  For `command`
+conditions the unchanged code makes death by a signal "no match" (`exec()` returns 128 + signal > 0, `expr_eval_command` only
+treats negative values as errors): the reading below is FALSE of the model, and of the binary (tools/cmdstatus.py pins it,
+design-notes/pkg-ce5.md has the reproduction). -/
+
+/-- The reading "a `command` condition whose program is killed by a signal is an error". -/
+def C04_command_signal_is_error : Prop :=
+  ∀ (env : Env) (root : Msg) (lno : Nat) (argv av : List Bytes) (part : Nat) (m : Msg) (st : St) (pid s g : Nat),
+    argv.mapM (interpolate st.ml none) = some av → Proofs.waitKind s = .signaled g →
+    env.command av = Model.execValue true (.ok pid) (.ok s) →
+    (eval env root (.command lno argv) part m st).1 = .error
+
+/-- An environment whose command oracle is `exec()` on a child killed by SIGSEGV (wait status 11). -/
+def segvCommandEnv : Env where
+  rx := fun _ _ => .nomatch
+  command := fun _ => Model.execValue true (.ok 7) (.ok 11)
+  isDir := fun _ => false
+  now := 0
+  strptime := fun _ => none
+  zoneName := fun _ => none
+  fileTime := fun _ => none
+  dryrun := false
+  path := []
+
+/-- It does not hold: `command "x"` whose program dies of SIGSEGV evaluates to "no match". -/
+theorem C04_command_signal_is_error_false : ¬ C04_command_signal_is_error := by
+  intro h
+  have h1 := h segvCommandEnv (parseMessage []) 1 [[120]] [[120]] 0 (parseMessage []) { ml := [], flags := ⟨0, 0⟩ } 7 11 11
+    (by decide +kernel) (by decide) rfl
+  rw [Proofs.eval_command] at h1
+  revert h1
+  decide +kernel
 
 end Mdsort.Props
